@@ -127,7 +127,7 @@ def expected(line, impl):
         # positions near INT_MAX in a buffer of `limit` bytes: code and position only
         T, n, limit, pos = t[1], int(t[2]), int(t[3]), int(t[4])
         need = pos + n * TYPES[T][0]
-        known = need >= 2 ** 31
+        known = n * TYPES[T][0] >= 2 ** 31      # F-C16d: the int product of sc_MPI_Pack_size
         if need > limit:
             return ["E", str(pos)], known
         return ["0", str(need)], known
@@ -288,13 +288,17 @@ def gen_cases(ctx):
 
 
 def gen_big(ctx):
-    """Pack / Unpack with positions near INT_MAX (each runs in its own process: the sanitizer stops at a signed overflow)"""
+    """Pack / Unpack with positions near INT_MAX, judged like every other case: MPI refuses what does not fit and leaves the position
+    (each runs in its own process: a sanitizer stop in one must not hide the others)"""
     rng = ctx.rng
     M = 2 ** 31 - 1
     big = ["packbig BYTE 2 %d %d" % (M, M - 1), "unpackbig BYTE 2 %d %d" % (M, M - 1),       # position + size = 2^31: does not fit
            "packbig BYTE 1 %d %d" % (M, M - 1), "unpackbig INT 1 %d %d" % (M, M - 4),         # exact fit at INT_MAX
            "packbig BYTE 2 %d %d" % (M - 1, M - 2), "unpackbig SHORT 1 %d %d" % (M - 1, M - 2),   # position + size = INT_MAX > limit
-           "packbig INT 2 1610612736 1610612732", "packbig DOUBLE 0 %d %d" % (M, M)]
+           "packbig INT 2 1610612736 1610612732", "packbig DOUBLE 0 %d %d" % (M, M),
+           "packbig BYTE 1 100 200", "unpackbig INT 3 64 %d" % M,                             # position behind the buffer: refused
+           "packbig LONG 1 %d %d" % (M, M - 3), "unpackbig LONG_DOUBLE 2 %d %d" % (M - 5, M - 20),   # sums far above 2^31 - 1
+           "packbig LONG_DOUBLE 268435456 100 0", "unpackbig LONG_DOUBLE 134217728 %d 0" % M]  # count * size = 2^32, 2^31: F-C16d
     for _ in range(2 if ctx.quick else 12):
         T = rng.choice(["BYTE", "SHORT", "INT", "LONG", "LONG_DOUBLE"])
         limit = M - rng.randrange(0, 40)
@@ -370,7 +374,7 @@ def run(ctx):
             _, known = expected(line, "serial")
             what = "signed integer overflow" if "signed integer overflow" in errb else "exit %s" % rcb
             if known:
-                ctx.violation("pack-position-overflow", "`%s`: serial driver stopped (%s): %s" % (line, what, errb[-600:]), dict(case=line, stderr=errb[-2000:]))
+                ctx.violation("pack-size-overflow", "`%s`: serial driver stopped (%s): %s" % (line, what, errb[-600:]), dict(case=line, stderr=errb[-2000:]))
             else:
                 ctx.violation("crash:" + line[:60], "serial driver stopped (%s) at `%s`: %s" % (what, line, errb[-1500:]), dict(case=line, stderr=errb[-3000:]))
     big_model, big_ompi = [], []
@@ -392,7 +396,7 @@ def run(ctx):
         if so is not None:
             bad, _ = judge(line, so, "serial")
             if bad:
-                ctx.violation("pack-position-overflow" if known else "c16:" + line[:70],
+                ctx.violation("pack-size-overflow" if known else "c16:" + line[:70],
                               "`%s`: serial emulation printed `%s`: %s" % (line, so, "; ".join(bad[:3])), dict(case=line, serial=so))
             if big_model and not known and so.replace(" GUARD", "") != big_model[k]:
                 ctx.tie_broken("model/implementation correspondence", "`%s`: serial libsc prints `%s`, model prints `%s`" % (line, so, big_model[k]))
@@ -400,7 +404,7 @@ def run(ctx):
             badm, _ = judge(line, big_ompi[k], "mpi")
             if badm:
                 ctx.tie_broken("one-rank specification validated against OpenMPI", "`%s`: OpenMPI prints `%s`: %s" % (line, big_ompi[k], "; ".join(badm[:3])))
-    ctx.notes["positions_near_INT_MAX"] = dict(cases=len(big), in_domain_of_F_C16c=nbig_known, serial_stopped=sum(1 for x in big_serial if x is None))
+    ctx.notes["positions_near_INT_MAX"] = dict(cases=len(big), in_domain_of_F_C16d=nbig_known, serial_stopped=sum(1 for x in big_serial if x is None))
 
     dist = {}
     nbad = nknown = ndis = nspec = nraw = 0
@@ -446,7 +450,7 @@ def run(ctx):
                        "position + count*size - 1, exact, + 1 relative to the buffer size; pack/type sizes; communicator, group and "
                        "completion calls with 0..17 null requests with and without status arrays; error classes, strings and stored texts of the 21 "
                        "codes, 14 numbers that are no code (13999, 14001, 14021, INT_MIN/MAX, random); Pack/Unpack with positions near INT_MAX "
-                       "(exact fit at INT_MAX, sum = INT_MAX > limit, sum = 2^31: F-C16c; one process each); a case is non-trivial unless it is barrier/wtime/group; distinct = distinct case lines")
+                       "(exact fit at INT_MAX, sum = INT_MAX > limit, sum >= 2^31 (regression of F-C16c), position behind the buffer, count * size >= 2^31 (F-C16d); one process each); a case is non-trivial unless it is barrier/wtime/group; distinct = distinct case lines")
     ctx.cov["exhaustive"] = False
     ctx.notes["case_distribution"] = dist
     ctx.notes["oracle_violations"] = nbad
